@@ -133,6 +133,32 @@ def emit_all(emit) -> None:
 
     emit.guard(invert_body)
 
+    def post_init():
+        pdef = ast.parse(textwrap.dedent(inspect.getsource(Chop.__post_init__))).body[0]
+        emit(
+            "c03PostInit",
+            "List String × Nat × (String × Nat) × (String × Nat)",
+            _translate_post_init(pdef),
+            "Chop.__post_init__: (the attributes counted as grading parameters, in list order; the threshold k of "
+            "`given < k`; the attribute defaulted when it is None and its integer default; the attribute clamped by "
+            "`max(int(x), m)` when it is not None and m)",
+        )
+
+    emit.guard(post_init)
+
+    def copy_preserving():
+        cdef = ast.parse(textwrap.dedent(inspect.getsource(Chop.copy_preserving))).body[0]
+        emit(
+            "c03CopyPreserving",
+            "(String × String) × List String × Bool",
+            _translate_copy_preserving(cdef),
+            "Chop.copy_preserving: (args[k1] = self.results[k2]; the keys set to None by the loop, in order; "
+            "`args[self.preserve] = self.results[self.preserve]` comes after the loop, then Chop(**args), "
+            "then `if inverted: chop.invert()`: true)",
+        )
+
+    emit.guard(copy_preserving)
+
 
 class TranslateError(Exception):
     pass
@@ -392,3 +418,141 @@ def _translate_method(fdef):
             continue
         fail(s, "unsupported statement")
     return out
+
+
+def _translate_post_init(fdef):
+    """`Chop.__post_init__`: list of counted attributes, `if len(xs) - xs.count(None) < k: if self.a is None: self.a = v`,
+    `if self.b is not None: self.b = max(int(self.b), m)`, `self.results = dict()`.  Anything else raises."""
+    import ast
+
+    def fail(node, why):
+        raise TranslateError(f"{fdef.name}: line {getattr(node, 'lineno', '?')}: {why}: {ast.unparse(node)[:120]}")
+
+    def attr(e):
+        if isinstance(e, ast.Attribute) and isinstance(e.value, ast.Name) and e.value.id == "self":
+            return e.attr
+        fail(e, "not an attribute of self")
+
+    def nat(e):
+        if isinstance(e, ast.Constant) and type(e.value) is int and e.value >= 0:
+            return e.value
+        fail(e, "not a whole-number constant")
+
+    def is_none_test(t, op):
+        return (isinstance(t, ast.Compare) and len(t.ops) == 1 and isinstance(t.ops[0], op)
+                and isinstance(t.comparators[0], ast.Constant) and t.comparators[0].value is None)
+
+    stmts = [s for s in fdef.body
+             if not (isinstance(s, ast.Expr) and isinstance(s.value, ast.Constant) and isinstance(s.value.value, str))]
+    names = k = dflt = clamp = None
+    listvar = None
+    for s in stmts:
+        if isinstance(s, ast.AnnAssign) and s.value is not None:
+            s = ast.Assign(targets=[s.target], value=s.value, lineno=s.lineno)
+        if isinstance(s, ast.Assign) and len(s.targets) == 1:
+            tg, v = s.targets[0], s.value
+            if isinstance(tg, ast.Name) and isinstance(v, ast.List) and names is None:
+                listvar, names = tg.id, [attr(x) for x in v.elts]
+                continue
+            if isinstance(tg, ast.Attribute) and attr(tg) == "results" and (
+                    (isinstance(v, ast.Call) and isinstance(v.func, ast.Name) and v.func.id == "dict" and not v.args and not v.keywords)
+                    or (isinstance(v, ast.Dict) and not v.keys)):
+                continue  # the empty results dictionary
+            fail(s, "unsupported assignment")
+        if isinstance(s, ast.If) and not s.orelse and len(s.body) == 1:
+            t, b = s.test, s.body[0]
+            if (isinstance(t, ast.Compare) and len(t.ops) == 1 and isinstance(t.ops[0], ast.Lt) and isinstance(t.left, ast.BinOp)
+                    and isinstance(t.left.op, ast.Sub) and k is None and names is not None):
+                l, r = t.left.left, t.left.right
+                ok_len = (isinstance(l, ast.Call) and isinstance(l.func, ast.Name) and l.func.id == "len" and len(l.args) == 1
+                          and isinstance(l.args[0], ast.Name) and l.args[0].id == listvar)
+                ok_cnt = (isinstance(r, ast.Call) and isinstance(r.func, ast.Attribute) and r.func.attr == "count"
+                          and isinstance(r.func.value, ast.Name) and r.func.value.id == listvar and len(r.args) == 1
+                          and isinstance(r.args[0], ast.Constant) and r.args[0].value is None)
+                if not (ok_len and ok_cnt):
+                    fail(s, "the test is not `len(xs) - xs.count(None) < k`")
+                if not (isinstance(b, ast.If) and not b.orelse and len(b.body) == 1 and is_none_test(b.test, ast.Is)
+                        and isinstance(b.body[0], ast.Assign) and len(b.body[0].targets) == 1
+                        and attr(b.body[0].targets[0]) == attr(b.test.left)):
+                    fail(s, "the body is not `if self.a is None: self.a = v`")
+                k, dflt = nat(t.comparators[0]), (attr(b.test.left), nat(b.body[0].value))
+                continue
+            if is_none_test(t, ast.IsNot) and clamp is None and isinstance(b, ast.Assign) and len(b.targets) == 1:
+                v = b.value
+                a = attr(t.left)
+                if not (attr(b.targets[0]) == a and isinstance(v, ast.Call) and isinstance(v.func, ast.Name) and v.func.id == "max"
+                        and len(v.args) == 2 and not v.keywords and isinstance(v.args[0], ast.Call)
+                        and isinstance(v.args[0].func, ast.Name) and v.args[0].func.id == "int" and len(v.args[0].args) == 1
+                        and attr(v.args[0].args[0]) == a):
+                    fail(s, "the body is not `self.b = max(int(self.b), m)`")
+                clamp = (a, nat(v.args[1]))
+                continue
+        fail(s, "unsupported statement")
+    if None in (names, k, dflt, clamp):
+        raise TranslateError(f"{fdef.name}: a part of __post_init__ is missing: {(names, k, dflt, clamp)}")
+    return (names, k, dflt, clamp)
+
+
+def _translate_copy_preserving(fdef):
+    """`Chop.copy_preserving`, statement by statement in this order; anything else raises."""
+    import ast
+
+    def fail(node, why):
+        raise TranslateError(f"{fdef.name}: line {getattr(node, 'lineno', '?')}: {why}: {ast.unparse(node)[:120]}")
+
+    params = [a.arg for a in fdef.args.args]
+    if len(params) != 2 or params[0] != "self":
+        fail(fdef, "unexpected parameters")
+    flag = params[1]
+    stmts = [s for s in fdef.body
+             if not (isinstance(s, ast.Expr) and isinstance(s.value, ast.Constant) and isinstance(s.value.value, str))]
+    if len(stmts) != 7:
+        fail(fdef, f"{len(stmts)} statements instead of 7")
+    s0, s1, s2, s3, s4, s5, s6 = stmts
+    # args = dataclasses.asdict(self)
+    if not (isinstance(s0, ast.Assign) and len(s0.targets) == 1 and isinstance(s0.targets[0], ast.Name)
+            and ast.unparse(s0.value) == "dataclasses.asdict(self)"):
+        fail(s0, "not `args = dataclasses.asdict(self)`")
+    d = s0.targets[0].id
+
+    def results_of(e):
+        if (isinstance(e, ast.Subscript) and isinstance(e.value, ast.Attribute) and e.value.attr == "results"
+                and isinstance(e.value.value, ast.Name) and e.value.value.id == "self"):
+            return e.slice
+        fail(e, "not self.results[...]")
+
+    def key_of(t):
+        if isinstance(t, ast.Subscript) and isinstance(t.value, ast.Name) and t.value.id == d:
+            return t.slice
+        fail(t, f"not {d}[...]")
+
+    # args["count"] = self.results["count"]
+    if not (isinstance(s1, ast.Assign) and len(s1.targets) == 1):
+        fail(s1, "unsupported statement")
+    k1, k2 = key_of(s1.targets[0]), results_of(s1.value)
+    if not all(isinstance(k, ast.Constant) and isinstance(k.value, str) for k in (k1, k2)):
+        fail(s1, "keys are not string constants")
+    # for arg in [...]: args[arg] = None
+    if not (isinstance(s2, ast.For) and isinstance(s2.target, ast.Name) and isinstance(s2.iter, ast.List) and not s2.orelse
+            and all(isinstance(x, ast.Constant) and isinstance(x.value, str) for x in s2.iter.elts) and len(s2.body) == 1
+            and isinstance(s2.body[0], ast.Assign) and len(s2.body[0].targets) == 1
+            and isinstance(key_of(s2.body[0].targets[0]), ast.Name) and key_of(s2.body[0].targets[0]).id == s2.target.id
+            and isinstance(s2.body[0].value, ast.Constant) and s2.body[0].value.value is None):
+        fail(s2, "not `for arg in [...]: args[arg] = None`")
+    cleared = [x.value for x in s2.iter.elts]
+    # args[self.preserve] = self.results[self.preserve]
+    if not (isinstance(s3, ast.Assign) and len(s3.targets) == 1 and ast.unparse(key_of(s3.targets[0])) == "self.preserve"
+            and ast.unparse(results_of(s3.value)) == "self.preserve"):
+        fail(s3, "not `args[self.preserve] = self.results[self.preserve]`")
+    # chop = Chop(**args)
+    if not (isinstance(s4, ast.Assign) and len(s4.targets) == 1 and isinstance(s4.targets[0], ast.Name)
+            and ast.unparse(s4.value) == f"Chop(**{d})"):
+        fail(s4, "not `chop = Chop(**args)`")
+    c = s4.targets[0].id
+    # if inverted: chop.invert()
+    if not (isinstance(s5, ast.If) and isinstance(s5.test, ast.Name) and s5.test.id == flag and not s5.orelse
+            and len(s5.body) == 1 and isinstance(s5.body[0], ast.Expr) and ast.unparse(s5.body[0].value) == f"{c}.invert()"):
+        fail(s5, "not `if inverted: chop.invert()`")
+    if not (isinstance(s6, ast.Return) and isinstance(s6.value, ast.Name) and s6.value.id == c):
+        fail(s6, "not `return chop`")
+    return ((k1.value, k2.value), cleared, True)
